@@ -50,6 +50,7 @@ class Ev:
                kw.get('old', self.old), kw.get('imports', self.imports), kw.get('resolver', self.resolver),
                kw.get('quant', self.quant))
         e.depth = self.depth
+        e.nounfold = getattr(self, 'nounfold', False)
         return e
 
     # -- helpers
@@ -587,6 +588,7 @@ class Ev:
             return self.call_uf_spec(sf, env)
         sub = Ev(self.cx, self.st, env, sf.pkg, self.old, sf.imports, None, self.quant)
         sub.depth = self.depth + 1
+        sub.nounfold = getattr(self, 'nounfold', False)
         return sub.ev(sf.body)
 
     def rtype_key(self, sf):
@@ -605,8 +607,7 @@ class Ev:
     def fn_old(self, args):
         if self.old is None:
             raise SpecError('old() outside a postcondition')
-        sub = self.sub(st=self.old)
-        sub._sink = self.st
+        sub = self.sub(st=self.old.with_sink(self.st))
         return sub.ev(args[0])
 
     def fn_len(self, args):
